@@ -119,6 +119,7 @@ class Config:
         self.max_paths = 20000 if tier == "quick" else 400000
         self.validate_every = 1
         self.interval_first = False   # try to discharge inequalities by interval enclosure first
+        self.fresh_branches = False   # decide branches with fresh solvers instead of the incremental one
         self.bb_max_boxes = 20000
         self.slice_first = False      # try obligations on the cone of influence of the claim first
         self.slice_timeout_ms = 10000
@@ -290,6 +291,14 @@ class PathCtx:
                 return 1
             if iv[1] <= 0:
                 return -1
+        if _nonlinear(t):
+            # nonlinear: interval branch-and-bound only (z3 may not return within its timeout)
+            df = lambda u, n: _zdiff(u, z3.Real(n), self)  # noqa: E731
+            if interval.prove_bb(t >= 0, self.box, dict(self.sqrt_args), 3000, diff=df) is True:
+                return 1
+            if interval.prove_bb(t <= 0, self.box, dict(self.sqrt_args), 3000, diff=df) is True:
+                return -1
+            return 0
         r, _ = self._inc_check(t < 0)
         if r == "unsat":
             return 1
@@ -306,6 +315,13 @@ class PathCtx:
                 return 1
             if iv[1] < 0:
                 return -1
+        if _nonlinear(t):
+            df = lambda u, n: _zdiff(u, z3.Real(n), self)  # noqa: E731
+            if interval.prove_bb(t > 0, self.box, dict(self.sqrt_args), 3000, diff=df) is True:
+                return 1
+            if interval.prove_bb(t < 0, self.box, dict(self.sqrt_args), 3000, diff=df) is True:
+                return -1
+            return 0
         r, _ = self._inc_check(t <= 0)
         if r == "unsat":
             return 1
@@ -334,6 +350,11 @@ class PathCtx:
             self.rep.solver_time += time.time() - t
 
     def _inc_check(self, extra=None):
+        if self.ex.cfg.fresh_branches:
+            # a long-lived incremental solver can get stuck on nonlinear paths (queries that a fresh
+            # solver answers at once); opt-in per property
+            return self._fresh_check([] if extra is None else [extra], self.ex.cfg.branch_timeout_ms)
+
         def f():
             if extra is not None:
                 self.inc.push()
@@ -403,6 +424,16 @@ class PathCtx:
             # the box of the declared symbols alone refutes the other side
             self.rep.extra["branches_decided_by_intervals"] = self.rep.extra.get("branches_decided_by_intervals", 0) + 1
             return self._record(cond, d, False)
+        if self.ex.cfg.interval_first:
+            # conditions that hold (or fail) with a margin on the whole box: interval branch-and-bound
+            df = lambda t, n: _zdiff(t, z3.Real(n), self)  # noqa: E731
+            cs = z3.simplify(cond)
+            if interval.prove_bb(cs, self.box, dict(self.sqrt_args), 3000, diff=df) is True:
+                self.rep.extra["branches_decided_by_intervals"] = self.rep.extra.get("branches_decided_by_intervals", 0) + 1
+                return self._record(cond, True, False)
+            if interval.prove_bb(z3.simplify(z3.Not(cond)), self.box, dict(self.sqrt_args), 3000, diff=df) is True:
+                self.rep.extra["branches_decided_by_intervals"] = self.rep.extra.get("branches_decided_by_intervals", 0) + 1
+                return self._record(cond, False, False)
         rt, _ = self._inc_check(cond)
         rf, _ = self._inc_check(z3.Not(cond))
         if rt == "unknown" or rf == "unknown":
@@ -785,6 +816,28 @@ class PathCtx:
     def sample(self, obj):
         if len(self.rep.samples) < 12:
             self.rep.samples.append(obj)
+
+
+def _nonlinear(t):
+    """True if t contains a product / quotient / power of non-constant terms."""
+    seen = set()
+    stack = [t]
+    while stack:
+        u = stack.pop()
+        i = u.get_id()
+        if i in seen or not z3.is_app(u):
+            continue
+        seen.add(i)
+        k = u.decl().kind()
+        ch = u.children()
+        if k == z3.Z3_OP_MUL:
+            if sum(1 for c in ch if not (z3.is_rational_value(c) or z3.is_int_value(c))) >= 2:
+                return True
+        elif k in (z3.Z3_OP_DIV, z3.Z3_OP_POWER):
+            if not (z3.is_rational_value(ch[1]) or z3.is_int_value(ch[1])) or k == z3.Z3_OP_POWER:
+                return True
+        stack.extend(ch)
+    return False
 
 
 _SYMS = {}
